@@ -1,6 +1,11 @@
 use crate::media::frame::MediaSample;
 use std::collections::BTreeMap;
+#[cfg(not(rustrtc_verif))]
 use std::time::{Duration, Instant};
+#[cfg(rustrtc_verif)]
+use std::time::Duration;
+#[cfg(rustrtc_verif)]
+use crate::verif_hooks::Instant;
 
 #[derive(Debug)]
 struct BufferedSample {
